@@ -91,16 +91,31 @@ def parseOpts (s : String) (fac : Factory) : Option Opts := do
     else none
   return o
 
-def parseFacEntry (s : String) : Option FacEntry :=
+def parseComp (s : String) : Option Comp :=
+  match s.splitOn "." with
+  | [dst, bits, acc] => do
+    let dst ← dst.toNat?
+    let bits ← bits.toNat?
+    if dst ≥ 256 ∨ bits ≥ 256 ∨ (acc != "a" ∧ acc != "-") then none
+    pure ⟨dst, acc == "a", bits⟩
+  | _ => none
+
+def parseFacEntry (s0 : String) : Option FacEntry :=
+  let (s, compS) := match s0.splitOn ":" with
+    | [a, b] => (a, some b)
+    | _ => (s0, none)
   match s.splitOn "." with
   | [mn, fnum, bt, fl] => do
+    let comps ← match compS with
+      | some c => (c.splitOn ",").mapM parseComp
+      | none => some []
     let mn ← mn.toNat?
     let fnum ← fnum.toNat?
     let bt ← match unhex bt with | some [b] => some b | _ => none
     if mn ≥ 65536 ∨ fnum ≥ 256 then none
     let flags := if fl == "-" then [] else fl.toList
     if flags.any (fun c => c != 'a' && c != 'b' && c != 'c') ∨ (fl != "-" ∧ fl.isEmpty) then none
-    pure ⟨mn, fnum, ⟨true, bt, flags.contains 'b', flags.contains 'a', flags.contains 'c'⟩⟩
+    pure ⟨mn, fnum, ⟨true, bt, flags.contains 'b', flags.contains 'a', flags.contains 'c', comps⟩⟩
   | _ => none
 
 def parseFactory (s : String) : Option Factory :=
